@@ -128,9 +128,9 @@ def actions(node):
                     out.append(("L", lab.replace(".clone()", "")))
             elif x["m"] in ("handle_func_call", "translate_iface_method_call_helper", "translate_func_call", "translate_lambda_call", "translate_num_method_call"):
                 out.append(("C", x["m"]))
-        elif x["k"] == "Call" and x["f"]["k"] == "Path" and x["f"]["p"] in ("helper", "perform_op"):
+        elif x["k"] == "Call" and x["f"]["k"] == "Path" and (x["f"]["p"] in ("helper", "perform_op") or (isinstance(x.get("inl"), dict) and x["inl"].get("closure"))):
             names = [a["v"] for a in x["args"] if a["k"] == "Lit" and a["t"] == "str"]
-            out.append(("H" if x["f"]["p"] == "helper" else "P", names[0] if names else None))
+            out.append(("H" if names else "P", names[0] if names else None))
         elif x["k"] == "Macro" and x["name"] in ("unreachable", "unimplemented", "panic", "todo"):
             out.append(("X", x["name"]))
         elif x["k"] == "Return":
@@ -138,14 +138,54 @@ def actions(node):
     return out
 
 
+def _value_of(e):
+    while e["k"] == "Paren":
+        e = e["e"]
+    if e["k"] == "Block" and e["stmts"] and e["stmts"][-1]["k"] == "ExprStmt":
+        return _value_of(e["stmts"][-1]["e"])
+    return e
+
+
+def _specialised(body, local, arm):
+    """Copy of `body` for the case that the type match initialising `local` takes `arm`: the variables the local binds
+    stand for the values the arm yields (`let (push_zero, subtract) = match ty { Int => (A, B), .. }; emit(push_zero); ..`)."""
+    from lib.inline import _copy, _subst
+
+    val = _value_of(arm["body"])
+    names = q.pat_bindings(local["pat"])
+    mapping = {}
+    if local["pat"]["k"] == "PTuple" and val["k"] == "Tuple" and len(val["elems"]) == len(local["pat"]["elems"]):
+        for p_, v in zip(local["pat"]["elems"], val["elems"]):
+            b = q.pat_bindings(p_)
+            if len(b) == 1:
+                mapping[b[0]] = v
+    elif len(names) == 1:
+        mapping[names[0]] = val
+    stmts = q.body_stmts(body)
+    rest = [st for st in stmts if st is not local]
+    cp = _copy({"k": "Block", "l": body.get("l", 0), "stmts": rest})
+    _subst(cp, mapping)
+    return cp, mapping
+
+
 def type_table(body, scrut_names):
-    """If body is `match <ty var> { SolvedType::T => .., _ => .. }` return {T or '_': actions} plus trailing actions."""
+    """If body is `match <ty var> { SolvedType::T => .., _ => .. }` return {T or '_': actions} plus trailing actions.
+    Also understands the match in value position: `let (a, b) = match <ty var> { T => (X, Y), .. }; emit(a); ..; emit(b)`."""
     for m in q.walk(body):
         if m["k"] == "Match" and q.show(m["e"]) in scrut_names:
+            local = next((l for l in q.body_stmts(body) if l["k"] == "Local" and l.get("init") is m), None)
             tbl = {}
             for arm in m["arms"]:
                 for h in q.pat_heads(arm["pat"]):
-                    tbl[q.last_seg(h) if h != "_" else "_"] = actions(arm["body"])
+                    if local is not None:
+                        acts = actions(arm["body"])
+                        if acts and acts[0][0] == "X":
+                            tbl[q.last_seg(h) if h != "_" else "_"] = acts
+                        else:
+                            cp, _ = _specialised(body, local, arm)
+                            tbl[q.last_seg(h) if h != "_" else "_"] = actions(cp)
+                    else:
+                        tbl[q.last_seg(h) if h != "_" else "_"] = actions(arm["body"])
             return tbl, m
     return None, None
 
@@ -171,6 +211,13 @@ def binop_tables(ctx, r):
     if binarm is None or unarm is None:
         r.missing("translate_expr:BinOp/Unop arms", TB)
         return None
+    # lowering helpers the arms delegate to (methods that emit or translate operands themselves) are read in place
+    from lib.inline import emits_code, materialize
+
+    named = {"handle_func_call", "translate_iface_method_call_helper", "translate_func_call", "translate_lambda_call", "translate_num_method_call", "emit_intrinsic", "translate_declaration"}
+    pred = lambda inl: not inl.get("closure") and inl.get("callee") not in named and emits_code(inl)  # noqa: E731
+    binarm = materialize(binarm, pred=pred)
+    unarm = materialize(unarm, pred=pred)
     left, opname, right = [e["name"] for e in binarm["pat"]["elems"]]
     ops = {}
     short = {}
